@@ -136,18 +136,18 @@ pub fn run(tier: Tier) -> CheckResult {
                 if *n >= 3 && (gi + ctx + layout) % 3 != 0 {
                     continue;
                 }
-                cases.push(GraphCase { n: *n, mask: *mask, root: if (gi + ctx) % 4 == 0 { Root::ReturnOk } else { Root::Param }, ctx, deviate: None, layout, derive_style: (gi + ctx) % 4, zod: true, naming: 0 });
+                cases.push(GraphCase { n: *n, mask: *mask, root: if (gi + ctx) % 4 == 0 { Root::ReturnOk } else { Root::Param }, ctx, deviate: None, layout, derive_style: (gi + ctx) % 4, zod: true, naming: 0, mapped: None });
                 // the whole graph reachable through an event payload only (typed parameter and annotated let)
                 if *n <= 3 && ctx <= 2 {
                     for root in [Root::Event, Root::EventLet] {
-                        cases.push(GraphCase { n: *n, mask: *mask, root, ctx, deviate: None, layout, derive_style: 0, zod: true, naming: (gi + ctx) % 2 * 4 });
+                        cases.push(GraphCase { n: *n, mask: *mask, root, ctx, deviate: None, layout, derive_style: 0, zod: true, naming: (gi + ctx) % 2 * 4, mapped: None });
                     }
                 }
                 // the other naming schemes (caseless scripts, names that contain each other, ...) on
                 // the direct, tuple and module-path contexts
                 if *n <= 3 && [0usize, 6, 10].contains(&ctx) && layout == 0 {
                     for naming in 1..c07::NAMINGS.len() {
-                        cases.push(GraphCase { n: *n, mask: *mask, root: Root::Param, ctx, deviate: None, layout: (gi + naming) % 3, derive_style: 0, zod: true, naming });
+                        cases.push(GraphCase { n: *n, mask: *mask, root: Root::Param, ctx, deviate: None, layout: (gi + naming) % 3, derive_style: 0, zod: true, naming, mapped: None });
                     }
                 }
             }
@@ -156,7 +156,7 @@ pub fn run(tier: Tier) -> CheckResult {
         if n_edges >= 2 && *n <= 3 {
             for e in 0..n_edges {
                 for c in 1..CONTEXTS.len() {
-                    cases.push(GraphCase { n: *n, mask: *mask, root: Root::Param, ctx: 0, deviate: Some((e, c)), layout: (gi + e) % 3, derive_style: 0, zod: true, naming: 0 });
+                    cases.push(GraphCase { n: *n, mask: *mask, root: Root::Param, ctx: 0, deviate: Some((e, c)), layout: (gi + e) % 3, derive_style: 0, zod: true, naming: 0, mapped: None });
                 }
             }
         }
